@@ -793,6 +793,8 @@ fn decoys(src: &str) -> Vec<String> {
         l.swap(i, i + 1);
         out.push(l.join("\n"));
     }
+    // the most similar texts are parsed last (directly before the real one)
+    out.reverse();
     out
 }
 
